@@ -66,6 +66,7 @@ class Stats:
         self.long_runs = 0
         self.long_ops = 0
         self.long_pairs = 0
+        self.novel_state = set()
         self.state_paths = set()
         self.write_functions = set()
         self.directed_runs = 0
@@ -427,7 +428,7 @@ def focus_sweep(seed, stats, found, ref, probes, pool, t_end, per_class, reps, w
                 # rep 0: line-level alternation; rep 1, 2: bytecode-level pre-emption inside the function (races inside one line)
                 spec['strategy'] = {'kind': 'focus', 'fn': f, 'p': (0.5, 0.5, 0.25, 1.0)[r % 4], 'instr': r % 4 in (1, 2)}
                 spec['sched_seed'] = (b['sched_seed'] + r * 7919 + hash_str(f[1])) & 0x3FFFFFFF
-                if r == reps - 1 and reps >= 3:
+                if r == reps - 1 and reps >= 3 and (reps > 3 or hash_str(f[1]) % 3 == 0):
                     # last rep: a call is aborted (or hits MemoryError) INSIDE the function, at its n-th line there, while the
                     # other clients keep using it: exception safety of whatever the function updates
                     h = hash_str(f[1] + f[0])
@@ -447,9 +448,23 @@ def focus_sweep(seed, stats, found, ref, probes, pool, t_end, per_class, reps, w
             stats.state_paths.add(path_)
         for f in wf['fns']:
             stats.write_functions.add(tuple(f[:2]))
-        for r in range(wf_runs):
-            spec = _copy.deepcopy(b)
-            spec['strategy'] = {'kind': 'focus', 'fns': wf['fns'], 'p': (0.05, 0.15, 0.4, 0.1)[r % 4]}
+        # state that the pinned tree is known to keep (the lazily extended reserved-word set, SQLAlchemy's memo attributes on a
+        # shared renderer's dialect object) gets the basic effort; anything else is NEW shared state: many more runs, on
+        # re-sampled scenarios of the same family, with pre-emption only in the functions that write the new state.
+        # (This list steers effort only; it is not an oracle and nothing is reported because of it.)
+        novel = [f for f in wf.get('by_fn', []) if any(not _known_state(p_) for p_ in f[3])]
+        n_runs, fns = (wf_runs * 12, [f[:3] for f in novel]) if novel else (wf_runs, wf['fns'])
+        if novel:
+            stats.novel_state.update(p_ for f in novel for p_ in f[3] if not _known_state(p_))
+        for r in range(n_runs):
+            bb = b if r < wf_runs else gen.gen_sweep_base(b['seed'] + 7 * (1 + r // 4), c, ref, b['families'][0])
+            if bb is not b:
+                ref.ensure([op for cl in bb['clients'] for op in cl])
+            spec = _copy.deepcopy(bb)
+            spec['strategy'] = {'kind': 'focus', 'fns': fns, 'p': (0.05, 0.15, 0.4, 0.1)[r % 4]}
+            if novel and r % 4 == 1:
+                # bytecode-level pre-emption inside one of the functions that write the new state (read-modify-write on one line)
+                spec['instr_fn'] = fns[(r // 4) % len(fns)]
             spec['sched_seed'] = (b['sched_seed'] + 104729 * (r + 1)) & 0x3FFFFFFF
             spec['directed'] = True
             if r % 4 == 3:
@@ -469,6 +484,13 @@ def focus_sweep(seed, stats, found, ref, probes, pool, t_end, per_class, reps, w
     return len(jobs)
 
 
+KNOWN_STATE = ('mindsdb_sql.parser.ast.select.identifier.RESERVED_KEYWORDS',)
+
+
+def _known_state(path):
+    return path in KNOWN_STATE or (path.startswith('renderer[') and path.endswith('.dialect'))
+
+
 def hash_str(s):
     import zlib
     return zlib.crc32(s.encode())
@@ -483,7 +505,7 @@ def main(tier='quick', seed=0, repo=None):
     if tier == 'quick':
         n_s1, n_s2, n_s3, s3_slice, instr_frac, sa_frac, max_min = 1600, 800, 16, 400, 0.08, 0.0, 150
         fr = 0.45
-        sweep = (1, 3, 0.38)
+        sweep = (2, 3, 0.38)
     else:
         n_s1, n_s2, n_s3, s3_slice, instr_frac, sa_frac, max_min = 10 ** 7, 10 ** 7, 64, None, 0.25, 0.15, 300
         fr = 0.5
@@ -515,7 +537,7 @@ def main(tier='quick', seed=0, repo=None):
         phases.append(('explore', round(time.time() - t0, 1)))
         if not found.full() and sweep[0]:
             t_sw = max(time.time() + 8.0, now + left * (fr + sweep[2]))
-            focus_sweep(seed, stats, found, ref, probes, sim_pool, t_sw, sweep[0], sweep[1], 8 if tier == 'quick' else 40, 14 if tier == 'quick' else 80)
+            focus_sweep(seed, stats, found, ref, probes, sim_pool, t_sw, sweep[0], sweep[1], 8 if tier == 'quick' else 40, 9 if tier == 'quick' else 80)
         phases.append(('sweep', round(time.time() - t0, 1)))
         # ---------------- S3
         s3_runs = 0
@@ -635,6 +657,7 @@ def main(tier='quick', seed=0, repo=None):
             'focus_sweep_runs': stats.sweep_runs, 'focus_sweep_distinct_functions': len(stats.sweep_functions),
             'state_directed_runs': stats.directed_runs,
             'state_outliving_a_call (paths whose fingerprint changed; search guidance only, not an oracle)': sorted(stats.state_paths)[:40],
+            'state_not_known_from_the_pinned_tree (gets 12x the directed runs)': sorted(stats.novel_state)[:20],
             'functions_writing_such_state': sorted('%s:%s' % f for f in stats.write_functions)[:40],
             'lock_yields (client blocked on a lock held by a parked client)': stats.lock_yields,
             'sim_runs_per_hour': int(sim_runs / max(wall, 1e-6) * 3600), 'seeds_per_hour': int(evaluations / max(wall, 1e-6) * 3600),
